@@ -751,6 +751,7 @@ def WordPtr.rs_cast_bytes8 {ρ} (p : WordPtr) : M ρ ArrayBuf := fun s =>
 
 /-- `self.2 as u8`: the `LastByte` field -/
 def Repr.field_2 {ρ} : M ρ Nat := Repr.last_byte
+def Repr.is_empty {ρ} : M ρ Bool := fun s => .next (decide (s.self.len = 0)) s
 /-- `self.as_bytes()` -/
 def Repr.as_bytes {ρ} : M ρ RawSlice := fun s =>
   match textOf s.hp s.st s.self with
